@@ -12,7 +12,48 @@ mod dom_conn;
 mod dom_client;
 mod dom_print;
 mod dom_body;
+mod dom_serve;
+mod dom_epoll;
 mod interpose;
+
+/// Counting allocator: live blocks of exactly 64 bytes with 64-byte alignment = live epoll `Handle` records
+/// (`#[repr(align(64))]`), plus total live heap bytes (for the C20 measurements).
+struct Counting;
+static LIVE_64: std::sync::atomic::AtomicIsize = std::sync::atomic::AtomicIsize::new(0);
+pub static LIVE_BYTES: std::sync::atomic::AtomicIsize = std::sync::atomic::AtomicIsize::new(0);
+pub static PEAK_BYTES: std::sync::atomic::AtomicIsize = std::sync::atomic::AtomicIsize::new(0);
+unsafe impl std::alloc::GlobalAlloc for Counting {
+    unsafe fn alloc(&self, l: std::alloc::Layout) -> *mut u8 {
+        use std::sync::atomic::Ordering::Relaxed;
+        if l.size() == 64 && l.align() == 64 {
+            LIVE_64.fetch_add(1, Relaxed);
+        }
+        let now = LIVE_BYTES.fetch_add(l.size() as isize, Relaxed) + l.size() as isize;
+        PEAK_BYTES.fetch_max(now, Relaxed);
+        std::alloc::System.alloc(l)
+    }
+    unsafe fn dealloc(&self, p: *mut u8, l: std::alloc::Layout) {
+        use std::sync::atomic::Ordering::Relaxed;
+        if l.size() == 64 && l.align() == 64 {
+            LIVE_64.fetch_sub(1, Relaxed);
+        }
+        LIVE_BYTES.fetch_sub(l.size() as isize, Relaxed);
+        std::alloc::System.dealloc(p, l)
+    }
+    unsafe fn realloc(&self, p: *mut u8, l: std::alloc::Layout, new_size: usize) -> *mut u8 {
+        use std::sync::atomic::Ordering::Relaxed;
+        let d = new_size as isize - l.size() as isize;
+        let now = LIVE_BYTES.fetch_add(d, Relaxed) + d;
+        PEAK_BYTES.fetch_max(now, Relaxed);
+        std::alloc::System.realloc(p, l, new_size)
+    }
+}
+#[global_allocator]
+static ALLOC: Counting = Counting;
+
+pub fn live_records() -> isize {
+    LIVE_64.load(std::sync::atomic::Ordering::SeqCst)
+}
 
 fn main() {
     // panics inside the code under test are outcomes, not crashes; keep stderr quiet
@@ -44,6 +85,8 @@ fn main() {
             "CLI" => dom_client::cli(rest),
             "PRINT" => dom_print::print(rest),
             "BODY" => dom_body::body(rest),
+            "SERVE" => dom_serve::serve(rest),
+            "EPOLL" => dom_epoll::epoll(rest),
             _ => "BAD-DOMAIN".to_string(),
         };
         let _ = writeln!(out, "{}", ans);
